@@ -118,8 +118,12 @@ static unsigned int assemble_imm(struct instr *instruc, unsigned char ptr[]) {
     return ptr_pos;
   // now calculate the required amount of zero-bytes to pad
   bool opd0_is_16 = opd0_mode == reg16 || opd0_mode == ext16;
-  if (bytes <= DWORD_BYTES && !(bytes == 1 && opd0_is_16))
-    bytes = DWORD_BYTES - bytes;
+  // a word-sized memory destination takes a two byte immediate
+  unsigned int imm_bytes = DWORD_BYTES;
+  if (instruc->mem_disp && instruc->keyword.is_word)
+    imm_bytes = DWORD_BYTES / 2;
+  if (bytes <= imm_bytes && !(bytes == 1 && opd0_is_16))
+    bytes = imm_bytes - bytes;
   else if (bytes > DWORD_BYTES && bytes <= QWORD_BYTES)
     bytes = QWORD_BYTES - bytes;
   // pad zero byte
